@@ -4,6 +4,28 @@ ALL = ["C%02d" % i for i in range(1, 21)]
 
 # id -> dict(technique, text, note, design_ref)
 CHECKS = {
+    "C01": dict(
+        technique="explicit-state BFS (fork-expanded, canonical dedup) + deviation-bounded enumeration over real PrimaiteGymEnv.step/reset",
+        text="Real PrimaiteGymEnv objects on every member of the generated scenario family GEN (routed and firewall topologies, "
+             "flattened/nested, masked/unmasked, ~127-entry action maps containing every registered action type aimed at existing, "
+             "missing and powered-off targets) and on the shipped scenarios (data_manipulation, UC7, UC7-TAP003, the three episode "
+             "schedules): BFS over {every action index, reset(), reset(seed)} and all executions with <=k departures from a default "
+             "script that crosses truncation, one step beyond it and a second episode. The step/reset contract (no exception, obs, "
+             "finite reward, terminated False, truncated iff steps>=max, exactly one tick, one history item and response per agent, "
+             "info lists every agent, reset => tick 0 / empty history / zero reward / new game) is evaluated on every transition.",
+        note="Seeded RNG streams (one stream per history); bounds (depth, horizon, k) per harness in the evidence file.",
+        design_ref="DESIGN.md §4 C01",
+    ),
+    "C02": dict(
+        technique="C01 exploration with space-membership oracle + exhaustive single-leaf product over real describe_state dictionaries",
+        text="The C01 exploration re-run with observation_space.contains(obs) (nested and flattened) after every reset/step and "
+             "constancy of observation/action space across episodes; plus, at component level, every source leaf of a real "
+             "describe_state() (every enum value read from the simulator at run time, every count 0..12 and 100, traffic/load from 0 "
+             "to 10x nominal, ACL rules with listed/unlisted fields, sessions 0..9, component absent) crossed with every power state of "
+             "the owning node, observe() checked against the declared space.",
+        note="Component level drives one leaf at a time (plus owner power state), not all pairs.",
+        design_ref="DESIGN.md §4 C02",
+    ),
     "C15": dict(
         technique="explicit-state BFS over real FileSystem objects (replay-from-history), invariants on every state",
         text="Every sequence of file-system requests / agent-action requests / API calls up to the stated depth over a "
